@@ -150,6 +150,7 @@ func nsSharedInvariants(rt *rapid.T, h *nsHist) {
 		w.checkKeyOwnership(rt)
 	}
 	w.checkUDPDestinations(rt, nil)
+	w.checkPending(rt)
 }
 
 func nsPickLive(rt *rapid.T, w *nsWorld, label string) int {
